@@ -10,6 +10,7 @@ import (
 	"sort"
 	"strings"
 	"sync"
+	"sync/atomic"
 	"time"
 )
 
@@ -66,7 +67,7 @@ type FakePool struct {
 	Manual   bool   // handshake requests are only recorded: the test answers them itself (C15)
 	JobN     int
 	DialFail bool
-	CloseOn  string // the pool hangs up when it receives this method (a failure during the handshake)
+	CloseOn  string        // the pool hangs up when it receives this method (a failure during the handshake)
 	Delay    time.Duration // the pool takes this long to answer a subscribe (a slow handshake)
 	Rec      *Rec
 	Mu       sync.Mutex
@@ -224,6 +225,9 @@ type FakeMiner struct {
 	C   net.Conn
 	Rec *Rec
 	Wmu sync.Mutex
+	// CloseOn: when set, the miner hangs up as soon as it receives a line containing this text (a miner lost in the middle of
+	// what the proxy is telling it)
+	CloseOn atomic.Value
 }
 
 func canonJSONValue(v any) string {
@@ -237,6 +241,11 @@ func (m *FakeMiner) Run() {
 		line, err := rd.ReadBytes('\n')
 		if err != nil {
 			m.Rec.Add("tominer", "closed")
+			return
+		}
+		if on, _ := m.CloseOn.Load().(string); on != "" && strings.Contains(string(line), on) {
+			m.Rec.Add("tominer", "hung-up-on %s", on)
+			m.C.Close()
 			return
 		}
 		var msg map[string]json.RawMessage
